@@ -92,6 +92,11 @@ edit "$d/scale/util.go" 's.replace("\tif x < 0 {\n\t\treturn 0\n\t}\n\tif x > 1 
 edit "$d/scale/linear.go" 's.replace("\ty := (x - s.Min) / (s.Max - s.Min)\n\tif s.Clamp {\n\t\ty = clamp(y)\n\t}\n\treturn y", "\twidth, off := s.Max-s.Min, x-s.Min\n\tif !s.Clamp {\n\t\treturn off / width\n\t} else {\n\t\treturn clamp(off / width)\n\t}")'
 expect H2 "$d" C16 ok
 
+echo "== H3 harmless: LinearHist.Add tests the in-range case first"
+d=$(mk H3)
+edit "$d/stats/linearhist.go" 's.replace("\tif bin < 0 {\n\t\th.low++\n\t} else if bin >= len(h.bins) {\n\t\th.high++\n\t} else {\n\t\th.bins[bin]++\n\t}", "\tif n := len(h.bins); 0 <= bin && bin < n {\n\t\th.bins[bin] += 1\n\t} else if bin >= n {\n\t\th.high++\n\t} else {\n\t\th.low++\n\t}")'
+expect H3 "$d" C14 ok
+
 echo "== B1 breaking: Combine drops the delta*delta term"
 d=$(mk B1)
 edit "$d/stats/stream.go" 's.replace("vM2 := s.vM2 + o.vM2 + delta*delta*float64(s.Count)*float64(o.Count)/float64(count)", "vM2 := s.vM2 + o.vM2")'
